@@ -1915,7 +1915,7 @@ func main() {
 		if len(pops) == 0 {
 			popsTerm = "([] : list pop)"
 		}
-		term := fmt.Sprintf("((%s, %s), (%s, %s))", coqout.List(ops), popsTerm, coqout.List(ob), coqout.List(op2))
+		term := fmt.Sprintf("(mk_case %s %s %s %s)", coqout.List(ops), popsTerm, coqout.List(ob), coqout.List(op2))
 		wb.Add(term, map[string]any{"case": c})
 		for _, f := range res.finds {
 			sum.Count("findings", f.key)
